@@ -117,6 +117,7 @@ class Unit:
         self.lemmas = []       # template-level proof fns registered with //@lemma
         self.canaries = []     # generated `requires P ensures false` vacuity canaries (must fail)
         self.clauses = []      # tagged contract clauses: dict(fn, tags, label, out_line)
+        self.missing = []      # functions the contract requires to exist but that are absent from the source
 
     def emit(self, text, origin):
         for k, ln in enumerate(text.split("\n")):
@@ -230,6 +231,17 @@ def _process(unit, tpath, repo):
                 it = find_item(src, path)
             except LexError as e:
                 raise Inconclusive("cannot tokenize %s: %s" % (f, e))
+            if it is None and kv.get("missing") == "violation":
+                # the contract demands this function; its absence is itself a failed obligation
+                nm = kv.get("as") or path[-1].split()[1]
+                qual = "::".join([[w for w in p.split() if not w.startswith("#")][-1] for p in path][:-1] + [nm])
+                unit.missing.append({"unit": unit.name, "qual": qual, "file": f, "path": path, "props": [p for p in kv.get("props", "").split(",") if p],
+                                     "tmpl": rel, "tmpl_line": i + 1, "what": kv.get("what", "").replace("_", " ")})
+                j = i + 1
+                while j < len(lines) and lines[j].strip() != "//@end":
+                    j += 1
+                i = j + 1
+                continue
             if it is None or isinstance(it, tuple) or it.body_open is None:
                 raise Inconclusive("lost anchor: fn %s :: %s" % (f, " :: ".join(path)))
             names, sig = fn_params(src, it)
@@ -465,7 +477,7 @@ def write_unit(unit, outdir):
         f.write("\n".join(unit.out_lines))
     with open(os.path.join(outdir, unit.name + ".map.json"), "w") as f:
         json.dump({"map": unit.map, "fns": unit.fns, "items": unit.items, "rules": unit.rule_counts,
-                   "lemmas": unit.lemmas, "canaries": unit.canaries, "clauses": unit.clauses}, f)
+                   "lemmas": unit.lemmas, "canaries": unit.canaries, "clauses": unit.clauses, "missing": unit.missing}, f)
     return p
 
 
